@@ -162,6 +162,12 @@ func FilterJSON(t *rapid.T, fields []string, depth int, label string) string {
 		kids := make([]string, n)
 
 		for i := range kids {
+			// (null is a well-formed member of a JSON list)
+			if rapid.IntRange(0, 7).Draw(t, label+"-nullkid") == 3 {
+				kids[i] = "null"
+				continue
+			}
+
 			kids[i] = FilterJSON(t, fields, depth-1, label+"-k")
 		}
 
@@ -413,6 +419,29 @@ func URLRequest(t *rapid.T, ss *SchemaSpec, o URLOpts) *URLReq {
 
 				seen[it] = true
 				items = append(items, it)
+			}
+
+			// As many names as the type has fields without being its fields:
+			// one of them replaced by "id", by a name given already or by an
+			// unknown name.
+			if fts := ss.Type(tn); fts != nil && len(fts.Fields()) > 1 && len(fts.Fields()) <= 80 && rapid.IntRange(0, 7).Draw(t, "asmany") == 5 {
+				items = rapid.Permutation(fts.Fields()).Draw(t, "asmany-order")
+				at := rapid.IntRange(0, len(items)-1).Draw(t, "asmany-at")
+
+				switch k := rapid.IntRange(0, 2).Draw(t, "asmany-kind"); {
+				case o.Valid && k == 1:
+					// (a name that is not a field is left out by the parser:
+					// what is kept has as many names as the type has fields)
+					items[at] = "id"
+					un := rapid.IntRange(0, len(items)).Draw(t, "asmany-unknown-at")
+					items = append(items[:un:un], append([]string{"zz-not-a-field"}, items[un:]...)...)
+				case o.Valid || k == 0:
+					items[at] = "id"
+				case k == 1:
+					items[at] = items[(at+1)%len(items)]
+				default:
+					items[at] = "nope"
+				}
 			}
 
 			// A name given twice, taken from the far end of the type's
